@@ -1,6 +1,8 @@
 package main
 
 import (
+	"fmt"
+
 	"github.com/hslam/rpc"
 )
 
@@ -28,7 +30,14 @@ func (a *StreamSvc) Push(s *SS) error {
 	for {
 		var in []byte
 		if err := s.st.ReadMessage(nil, &in); err != nil {
+			// what the handler sees when its stream ends, and what later operations return
+			var again []byte
+			msg := []byte{0xDD}
+			w.streamEnd = append(w.streamEnd, [3]string{errStr(err), errStr(s.st.WriteMessage(&msg)), errStr(s.st.ReadMessage(nil, &again))})
 			return err
+		}
+		if len(in) > 0 {
+			w.streamLog[in[0]] = append(w.streamLog[in[0]], fmt.Sprintf("%x", in))
 		}
 		out := transform(in)
 		if err := s.st.WriteMessage(&out); err != nil {
